@@ -2,7 +2,7 @@
    Ty/Rename.v.  A candidate is (identity, class, matching predicate); for user functions the matching predicate is
    [func_bind_own] of Ty/Types.v, for standard-library dynamic functions it is whatever their factory decides. *)
 From Coq Require Import List NArith Bool Arith Permutation.
-From Xr Require Import Ty.Types Ty.Overload Ty.OverloadProofs Ty.Rename.
+From Xr Require Import Ty.Types Ty.Overload Ty.OverloadProofs Ty.Rename Ty.TyInst Ty.ToStrProofs.
 Import ListNotations.
 
 (* not on declaration order *)
@@ -49,6 +49,12 @@ Theorem C05_unique_best_wins : forall cs args c,
   resolve_call cs args = Chosen (c_id c).
 Proof. exact unique_best_wins. Qed.
 
+(* the same holds through the inner lookups of a dynamic library function (modelled for to_str: a container's to_str
+   matches when the lookup of to_str for its components, made among the same visible overloads, finds a single best one) *)
+Theorem C05_inner_lookup_order_independent : forall fuel statics statics' args,
+  Permutation statics statics' -> resolve_to_str fuel statics args = resolve_to_str fuel statics' args.
+Proof. exact resolve_to_str_perm. Qed.
+
 Example C05_instances :
   let int := TPrim 1 in let flt := TPrim 2 in let seq t := TCon (CNat 0) (TCons t TNil) in
   let f_int := static_cand 1 [] 1 (TCons int TNil) in
@@ -73,4 +79,5 @@ Print Assumptions C05_depends_only_on_matching.
 Print Assumptions C05_alpha.
 Print Assumptions C05_ranking.
 Print Assumptions C05_unique_best_wins.
+Print Assumptions C05_inner_lookup_order_independent.
 Print Assumptions C05_instances.
